@@ -220,6 +220,16 @@ func makeTarget(
 	segments pathSegments,
 	variables []pathVariable,
 ) (*routeTarget, error) {
+	// Field paths are resolved against the descriptors of the message types that will
+	// actually be instantiated: a resolver may supply types whose descriptors are not
+	// the same instances as the ones the service schema refers to.
+	inputDesc, outputDesc := config.descriptor.Input(), config.descriptor.Output()
+	if config.requestType != nil {
+		inputDesc = config.requestType.Descriptor()
+	}
+	if config.responseType != nil {
+		outputDesc = config.responseType.Descriptor()
+	}
 	var requestBodyFields []protoreflect.FieldDescriptor
 	if requestBody == "*" {
 		// non-nil, empty slice means use the whole thing
@@ -227,7 +237,7 @@ func makeTarget(
 	} else if requestBody != "" {
 		var err error
 		requestBodyFields, err = resolvePathToFieldDescriptors(
-			config.descriptor.Input(), requestBody, false,
+			inputDesc, requestBody, false,
 		)
 		if err != nil {
 			return nil, err
@@ -246,7 +256,7 @@ func makeTarget(
 	} else if responseBody != "" {
 		var err error
 		responseBodyFields, err = resolvePathToFieldDescriptors(
-			config.descriptor.Output(), responseBody, false,
+			outputDesc, responseBody, false,
 		)
 		if err != nil {
 			return nil, err
@@ -261,7 +271,7 @@ func makeTarget(
 	routeTargetVars := make([]routeTargetVar, len(variables))
 	for i, variable := range variables {
 		fields, err := resolvePathToFieldDescriptors(
-			config.descriptor.Input(), variable.fieldPath, false,
+			inputDesc, variable.fieldPath, false,
 		)
 		if err != nil {
 			return nil, err
